@@ -18,6 +18,7 @@ type Snapshot struct {
 	Servers  map[string][]string // backend -> sorted enabled servers "addr:port=w<N>|drain"
 	Backends map[string][]string // backend -> canonical non-server lines
 	Crt      map[string]string   // sni -> certificate identity (file base name + content hash)
+	TCP      map[string]string   // public port of a ConfigMap tcp service (`listen _tcp_*`) -> proxy, servers, proxy protocol, crt/ca/crl identity
 	Static   []string            // global/defaults/frontends/userlists static text
 	Problems []string            // load problems (C07): dangling references, duplicates
 	Skipped  []string            // constructs the evaluator does not interpret
@@ -162,6 +163,18 @@ func (p *Pipeline) Snapshot(reqs []Request, snis []string) *Snapshot {
 					}
 				}
 			}
+		}
+	}
+	// tcp services of the --tcp-services-configmap ConfigMap
+	for _, k := range SortedKeys(cfg.Listens) {
+		if port, txt, ok := p.tcpService(cfg.Listens[k]); ok {
+			if s.TCP == nil {
+				s.TCP = map[string]string{}
+			}
+			if prev, dup := s.TCP[port]; dup {
+				txt = prev + " || " + txt
+			}
+			s.TCP[port] = txt
 		}
 	}
 	// static text
@@ -429,6 +442,64 @@ func (s *Snapshot) canonAuth(cfg *Config) {
 	s.Static = out
 }
 
+// tcpService: the behaviour of one `listen _tcp_<ns>_<svc>_<port>` section: who listens on the public port (bind
+// address, accept-proxy, TLS offload certificate, client verification CA/CRL: file base name + content hash),
+// where the connections go (enabled servers, sorted; send-proxy version, health check) — server slot names are labels.
+func (p *Pipeline) tcpService(sec *Section) (port, txt string, ok bool) {
+	if !strings.HasPrefix(sec.Name, "_tcp_") {
+		return "", "", false
+	}
+	bind, accept, crt, ca, crl, verify := "", "no", "-", "-", "-", "-"
+	var srvs, other []string
+	for _, l := range sec.Lines {
+		switch l[0] {
+		case "bind":
+			if len(l) > 1 {
+				bind = l[1]
+				if i := strings.LastIndex(bind, ":"); i >= 0 {
+					port = bind[i+1:]
+				}
+			}
+			for i := 2; i < len(l); i++ {
+				switch l[i] {
+				case "accept-proxy":
+					accept = "yes"
+				case "crt", "ca-file", "crl-file", "verify":
+					if i+1 < len(l) {
+						switch l[i] {
+						case "crt":
+							crt = p.crtIdentity(l[i+1])
+						case "ca-file":
+							ca = p.crtIdentity(l[i+1])
+						case "crl-file":
+							crl = p.crtIdentity(l[i+1])
+						case "verify":
+							verify = l[i+1]
+						}
+						i++
+					}
+				case "ssl":
+				default:
+					other = append(other, "bind:"+l[i])
+				}
+			}
+		case "server":
+			if len(l) > 2 {
+				srvs = append(srvs, p.norm(strings.Join(l[2:], " ")))
+			}
+		case "mode":
+		default:
+			other = append(other, p.norm(strings.Join(l, " ")))
+		}
+	}
+	sort.Strings(srvs)
+	txt = fmt.Sprintf("%s bind=%s accept-proxy=%s crt=%s ca=%s crl=%s verify=%s servers=[%s]", sec.Name, bind, accept, crt, ca, crl, verify, strings.Join(srvs, ","))
+	if len(other) > 0 {
+		txt += " other=[" + strings.Join(other, ";") + "]"
+	}
+	return port, txt, port != ""
+}
+
 func containsFileList(l []string) bool {
 	for i, t := range l {
 		if t == "-f" && i+1 < len(l) {
@@ -502,6 +573,9 @@ func (s *Snapshot) Text() string {
 	}
 	for _, k := range SortedKeys(s.Crt) {
 		fmt.Fprintf(&b, "crt %s -> %s\n", k, s.Crt[k])
+	}
+	for _, k := range SortedKeys(s.TCP) {
+		fmt.Fprintf(&b, "tcp %s -> %s\n", k, s.TCP[k])
 	}
 	for _, l := range s.Static {
 		b.WriteString(l + "\n")
